@@ -40,7 +40,7 @@ def main():
         {"ops": [["call", "bad", "thread"], ["set", "1"], ["call", "bad", "thread"], ["call", "bad"], ["set", "0"], ["call", "bad", "thread"], ["call", "good", "thread"]]},
         {"decorate_disabled": True, "ops": [["set", "true"], ["call", "bad", "thread"], ["set", "false"], ["call", "bad", "thread"]]},
     ]
-    for _ in range(40 if R.thorough else 6):
+    for _ in range(1500 if R.thorough else 6):
         ops = []
         for _ in range(R.rng.choice([4, 6, 8])):
             if R.rng.random() < .45:
